@@ -168,6 +168,7 @@ def C07(g, tier):
                 yield sx(["a_argsort", bk, xs]), n >= 2
                 yield sx(["a_sparse_bincount", bk, xs]), n >= 2
             yield sx(["a_cumsum", xs]), n > 0
+            yield sx(["a_to_dense", [x * 3 for x in xs]]), n > 1
             yield sx(["a_sum", xs]), n > 0
             yield sx(["a_max", xs]), n > 0
             yield sx(["a_zero", xs]), n > 0
@@ -323,6 +324,7 @@ def C08(g, tier):
         b = g.ics(nseg=n if g.r.random() < 0.85 else g.size())
         xl = g.nats(n if g.r.random() < 0.85 else g.size(), 4)
         yield sx(["ops_new", xl, a, b]), n >= 2
+        yield sx(["ops_validate", [xl, a, b]]), n >= 2
         if len(xl) == n and len(b[0][0]) == n:
             yield sx(["ops_iter", [xl, a, b]]), n >= 2
         yield sx(["ops_singleton", g.nat(4), g.nats(g.size(), 3), g.nats(g.size(), 3)]), False
@@ -800,6 +802,7 @@ def C09(g, tier):
         yield sx(["lohg_quotient", f]), nq >= 2
         yield sx(["lhg_quotient", f[2]]), nq >= 2
         yield sx(["lhg_coequalizer", f[2]]), nq >= 2
+        yield sx(["lhg_is_strict", f[2]]), False
         # interleaved unify / quotient histories
         n = len(f[2][0])
         cs = []
